@@ -38,6 +38,7 @@ def run_tie(rng_tag, sources, timeout_per_job=4.0):
         fr = ml.get(rec["fid"], "")
         rec["imp"] = "(imp 1)" in fr
         rec["safe"] = "(safe 1)" in fr
+        rec["cov"] = "(cov 1)" in fr
         rec["kfree"] = "ok" if "(kfree ok)" in fr else "crash" if "(kfree crash)" in fr else "other"
         rec["ands"] = {c: (rec["rust"][c] or "").count("(a ") for c in ("dedup", "nodedup")}
         m = ml.get(rec["mid"], "(no-result)")
@@ -103,7 +104,8 @@ def tie_pass(ck, sources, max_programs=150, tag="tie"):
         ck.violation(f"a program in the proved data-movement class compiles to {r['ands']} AND gates",
                      {"program": r["src"], "theorem": "FreeLower.data_movement_zero_and"})
     ck.coverage["theorem_fragments"] = {
-        "tied_programs": tied, "in_imperative_scalar_fragment (TSem = Sem.v proved)": imp,
+        "tied_programs": tied, "covered_program (TSem = Sem.v proved: full fragment or scalar fragment with calls)": sum(1 for r in recs if r.get("cov")),
+        "in_imperative_scalar_fragment (TSem = Sem.v proved)": imp,
         "in_data_movement_class (zero AND gates proved)": len(kfree),
         "safe_program_ok (TSem never crashes, declared output size: proved)": sum(1 for r in recs if r.get("safe"))}
     ck.coverage["lowering_tie"] = {"candidates": len(recs), "by_status": cnt, "gates_tied": sum(r.get("gates", 0) for r in recs),
